@@ -580,6 +580,19 @@ def conformance(o, family, module, cfg, pkg, schedules, *, test="TestExec", tag=
             if v2.rejected:
                 rep = (t2, v2)
                 sched = rs
+        context = None
+        if rep is None and sid > 0:
+            # The rejection may depend on what EARLIER schedules of the batch left behind in the process (package-level
+            # caches, pools): re-execute the schedule after its predecessors, as in the run that showed it.  Reproduced
+            # this way, the violating history is the sequence; the replay file carries it as "context".
+            ctxs = schedules[max(0, sid - 40):sid + 1]
+            for _ in range(2):
+                t2, s2, _ = run_schedules(pid, pkg, test, ctxs, tag=tag + "_rectx", env=env, timeout=exec_timeout)
+                v2 = validate_traces(pid, family, module, cfg, t2, timeout=tv_timeout, dfs=dfs)
+                if v2.rejected:
+                    rep = (t2, v2)
+                    context = ctxs
+                    break
         if rep is None:
             unreproduced.append((sid, pos, reason, traces[ti]))
             if len(unreproduced) >= 6 or len(unreproduced) >= len(seen_sched):
@@ -604,7 +617,7 @@ def conformance(o, family, module, cfg, pkg, schedules, *, test="TestExec", tag=
         path = save_replay(pid, "%s_%s_%d" % (family, tag, sid),
                            {"property": pid, "family": family, "trace_module": module,
                             "trace_cfg": cfg if isinstance(cfg, str) else "(per-trace configuration)", "pkg": pkg,
-                            "test": test, "env": env or {}, "schedule": sched, "trace": bad,
+                            "test": test, "env": env or {}, "schedule": sched, "context": context, "trace": bad,
                             "rejected_at_event": bpos, "event": bad[bpos] if bpos < len(bad) else None,
                             "reason": breason})
         o.violations.append((path, "%s: %s at event %d: %s" % (family, breason, bpos,
